@@ -106,9 +106,11 @@ Quiesce ==
               /\ (vetoSeen => Ev.enters = 0))
   /\ UNCHANGED <<cfg, sp, cp, enters, vetoSeen, cveto, hexit, done, ppanic>> /\ Step
 
-Known == {"Reset", "Hook", "HEnter", "HExit", "CallDone", "PushRet", "Quiesce", "CallHang", "PushHang", "SetupFailed"}
+\* C04: the status a caller was handed stays what it was while later messages are received in the process
+HeldStatus == Is("HeldStatus") /\ G("C04", Ev.changed = 0) /\ UNCHANGED <<cfg, sp, cp, enters, vetoSeen, cveto, hexit, done, ppanic>> /\ Step
+Known == {"Reset", "Hook", "HEnter", "HExit", "CallDone", "PushRet", "Quiesce", "HeldStatus", "CallHang", "PushHang", "SetupFailed"}
 Skip == l <= N /\ Ev.ev \notin Known /\ UNCHANGED <<cfg, sp, cp, enters, vetoSeen, cveto, hexit, done, ppanic>> /\ Step
-Next == Reset \/ Hook \/ HEnter \/ HExit \/ CallDone \/ PushRet \/ Quiesce \/ BadType \/ Skip
+Next == Reset \/ Hook \/ HEnter \/ HExit \/ CallDone \/ PushRet \/ Quiesce \/ BadType \/ HeldStatus \/ Skip
 Spec == Init /\ [][Next]_vars
 Accepted == PrintT(<<"HWM", TLCGet(1), N>>) /\ TRUE
 =============================================================================
